@@ -672,6 +672,7 @@ def _refuse_if_dead():
         raise greenlet.GreenletExit()
 
 
+NEXT_FLAGS = {}       # world flags of the next execution (coarse_mtime), set by explore.execute
 NEXT_FAULT = None     # ("token-read", n): the n-th read of a token file in the next world fails with EIO (set by explore.execute)
 
 
@@ -865,8 +866,10 @@ def run_world(mains, schedule=None, policy="FIFO", fine=False, kill=None, max_st
         policy, deporder = policy[:-4], "rev"
     hub = Hub(schedule, policy, max_steps, kill, on_step, expect_widths)
     world = World(wd, fine)
-    global NEXT_FAULT
+    global NEXT_FAULT, NEXT_FLAGS
     world.fault, NEXT_FAULT = NEXT_FAULT, None
+    world.coarse_mtime = bool(NEXT_FLAGS.get("coarse_mtime"))
+    NEXT_FLAGS = {}
     world.deporder = deporder
     HUB, W = hub, world
     result = {"main_exc": {}, "returned": []}
